@@ -42,6 +42,11 @@ func c06Kinds() []c06Stmt {
 		{"arithArr", one(func(r *plan.Rng, id int) string { return v(id) + " := arr + arr" })},
 		{"arithBytes", one(func(r *plan.Rng, id int) string { return v(id) + " := byt + byt" })},
 		{"compare", one(func(r *plan.Rng, id int) string { return v(id) + " := n " + []string{"<", ">", "<=", ">="}[r.Intn(4)] + " 3" })},
+		{"compareFloat", one(func(r *plan.Rng, id int) string { return v(id) + " := fl " + []string{"<", ">", "<=", ">="}[r.Intn(4)] + " 3.5" })},
+		{"compareStr", one(func(r *plan.Rng, id int) string { return v(id) + " := str " + []string{"<", ">", "<=", ">="}[r.Intn(4)] + " \"m\"" })},
+		{"compareChar", one(func(r *plan.Rng, id int) string { return v(id) + " := chr " + []string{"<", ">", "<=", ">="}[r.Intn(4)] + " 'm'" })},
+		{"arithIntFloat", one(func(r *plan.Rng, id int) string { return v(id) + " := n " + []string{"+", "-", "*", "/"}[r.Intn(4)] + " 2.5" })},
+		{"arithTime", one(func(r *plan.Rng, id int) string { return v(id) + " := time(n) + 5" })},
 		{"unaryMinus", one(func(r *plan.Rng, id int) string { return v(id) + " := -n" })},
 		{"unaryMinusFloat", one(func(r *plan.Rng, id int) string { return v(id) + " := -fl" })},
 		{"unaryCompl", one(func(r *plan.Rng, id int) string { return v(id) + " := ^n" })},
@@ -145,8 +150,19 @@ func genC06Alloc(r *plan.Rng) *plan.Plan {
 	// twin: one more operation of kind K appended
 	k := kinds[r.Intn(len(kinds))]
 	id++
-	twin := lines(append(append(append([]string{}, body...), k.lines(r, id)...), "done := 1")...)
-	note(p, "K", k.kind)
+	kl := k.lines(r, id)
+	kname := k.kind
+	if r.Chance(1, 3) {
+		// the same operation inside a function literal that is called once
+		wrapped := []string{"wrapk := func() {"}
+		for _, l := range kl {
+			wrapped = append(wrapped, "\t"+l)
+		}
+		kl = append(wrapped, "}", "wrapk()")
+		kname += "/inFunc"
+	}
+	twin := lines(append(append(append([]string{}, body...), kl...), "done := 1")...)
+	note(p, "K", kname)
 	mods := []string{}
 	for _, m := range p.Modules {
 		mods = append(mods, m.Name)
